@@ -16,5 +16,5 @@ echo "SEED $id $(basename $(dirname $dir))/$(basename $dir) tier=$tier demo(clea
 grep -m2 "violation:" "$out.log" | cut -c1-300
 cp "$out.log" /verif/.work/lasttry_${id}.log 2>/dev/null; git -C /repo worktree remove --force "$wt"; rm -rf "$out" "$out.log"
 # restore generated tables for the real tree
-./check tables >/dev/null 2>&1
+[ -n "$NO_TABLES" ] || ./check tables >/dev/null 2>&1
 exit 0
